@@ -395,6 +395,23 @@ func C09(run *hx.Run) {
 						}
 						return unused, func() {}, nil
 					}},
+					{"fresh-handle-through-symlink", func() (*sqlittle.DB, func(), error) {
+						// the database opened under another name: a symbolic link in another directory. SQLite names
+						// the journal after the real file, so the hot journal next to the real file still counts.
+						ldir := filepath.Join(wdir, "links")
+						os.MkdirAll(ldir, 0o755)
+						link := filepath.Join(ldir, "alias.sqlite")
+						os.Remove(link)
+						if err := os.Symlink(orig, link); err != nil {
+							return nil, nil, err
+						}
+						d, err := sqlittle.Open(link)
+						if err != nil {
+							os.Remove(link)
+							return nil, func() {}, errRefusedAtOpen
+						}
+						return d, func() { d.Close(); os.Remove(link) }, nil
+					}},
 					{"fresh-handle-with-foreign-reader", func() (*sqlittle.DB, func(), error) {
 						lh, err := hx.StartLockHolder(orig, "shared:RD")
 						if err != nil {
@@ -426,7 +443,7 @@ func C09(run *hx.Run) {
 						run.See("first_call_on_unused_handle", verOps[t.k%len(verOps)])
 					}
 					// whatever the outcome, a finished call leaves no lock of ours behind
-					if ex.kind != "fresh-handle-with-foreign-reader" {
+					if ex.kind != "fresh-handle-with-foreign-reader" && ex.kind != "fresh-handle-through-symlink" {
 						if locks, err := hx.FileLocks(orig); err == nil {
 							for _, l := range locks {
 								if l.Pid == os.Getpid() {
